@@ -240,10 +240,11 @@ def typed(c, kind):
 
 
 def row_texts(text):
-    """the row pieces of one 'T:r1,r2' text"""
+    """the row pieces of one 'T:r1,r2' text, each with its table prefix ('T:r1', 'T:r2')"""
     if ":" not in text:
         return []
-    return [x for x in text.rstrip(";").split(":", 1)[1].split(",") if x != ""]
+    t, rows = text.rstrip(";").split(":", 1)
+    return [t + ":" + x for x in rows.split(",") if x != ""]
 
 
 def analyze_iso(case):
